@@ -132,6 +132,7 @@ impl<CharIter: Iterator<Item = char>> Lexer<CharIter> {
                         ' ' | '\t' | '\n' | '\r' | '(' | ')' | '"' | ';' | '|' => {
                             Ok(Some(TokenData::Period))
                         }
+                        '0'..='9' => self.number(),
                         _ => self.percular_identifier(),
                     },
                     None => Ok(Some(TokenData::Period)),
@@ -413,6 +414,37 @@ impl<CharIter: Iterator<Item = char>> Lexer<CharIter> {
     }
 
     fn number(&mut self) -> Result<Option<TokenData>> {
+        let token = self.number_token()?;
+        // a number of any kind ends at a delimiter (or at the end of the input): 1/2/3, 1e2e3
+        if let Some(c) = self.peekable_char_stream.peek() {
+            Self::test_delimiter(Some(self.location), *c)?;
+        }
+        // a decimal needs digits: reject 1e, +.e, -.
+        if let Some(TokenData::Primitive(Primitive::Real(literal))) = &token {
+            if literal.parse::<f64>().is_err() {
+                return located_error!(SyntaxError::UnrecognizedToken, Some(self.location));
+            }
+        }
+        Ok(token)
+    }
+
+    fn integer_token(&self, literal: &str) -> Result<Option<TokenData>> {
+        // a literal that starts with a dot (.5) is a decimal
+        if literal.contains('.') {
+            return Ok(Some(TokenData::Primitive(Primitive::Real(
+                literal.to_string(),
+            ))));
+        }
+        match literal.parse::<i32>() {
+            Ok(integer) => Ok(Some(TokenData::Primitive(Primitive::Integer(integer)))),
+            Err(_) => located_error!(
+                SyntaxError::Extension(format!("integer literal {} out of range", literal)),
+                Some(self.location)
+            ),
+        }
+    }
+
+    fn number_token(&mut self) -> Result<Option<TokenData>> {
         match self.current.take() {
             Some(c) => {
                 let mut number_literal = String::new();
@@ -438,31 +470,34 @@ impl<CharIter: Iterator<Item = char>> Lexer<CharIter> {
                                 let mut denominator = String::new();
                                 self.advance(1);
                                 self.digital10(&mut denominator)?;
-                                break Ok(Some(TokenData::Primitive(Primitive::Rational(
-                                    number_literal.parse::<i32>().unwrap(),
-                                    match denominator.parse::<u32>().unwrap() {
-                                        0 => {
-                                            return located_error!(
-                                                SyntaxError::RationalDivideByZero,
-                                                Some(self.location)
-                                            )
-                                        }
-                                        other => other,
-                                    },
-                                ))));
+                                let components = (
+                                    number_literal.parse::<i32>(),
+                                    denominator.parse::<i32>(),
+                                );
+                                break match components {
+                                    (Ok(_), Ok(0)) => located_error!(
+                                        SyntaxError::RationalDivideByZero,
+                                        Some(self.location)
+                                    ),
+                                    (Ok(numerator), Ok(denominator)) => {
+                                        Ok(Some(TokenData::Primitive(Primitive::Rational(
+                                            numerator,
+                                            denominator as u32,
+                                        ))))
+                                    }
+                                    // missing denominator (1/) or a component out of range
+                                    _ => located_error!(
+                                        SyntaxError::UnrecognizedToken,
+                                        Some(self.location)
+                                    ),
+                                };
                             }
                             _ => {
                                 Self::test_delimiter(Some(self.location), *nc)?;
-                                break Ok(Some(TokenData::Primitive(Primitive::Integer(
-                                    number_literal.parse::<i32>().unwrap(),
-                                ))));
+                                break self.integer_token(&number_literal);
                             }
                         },
-                        None => {
-                            break Ok(Some(TokenData::Primitive(Primitive::Integer(
-                                number_literal.parse::<i32>().unwrap(),
-                            ))))
-                        }
+                        None => break self.integer_token(&number_literal),
                     }
                 }
             }
